@@ -16,7 +16,7 @@ pub fn gen_case(t: &mut Tape, tier: Tier) -> Option<Phys> {
     let prof = gen::PointProfile { lambda_tail: 0.1, bm_extreme: 0.1, ..gen::MODERATE };
     if t.chance(0.2) {
         // hand-written-style kinematics (small integers / half-integers)
-        let g = gen::gen_phys_graph(t, tier.pick(8, 9), 5, mo, 6)?;
+        let g = gen::gen_phys_graph(t, tier.pick(8, 9), 8, mo, 6)?;
         let (free, masses) = gen::gen_kin_data_special(t, &g);
         let kin = gen::gen_routing(t, &g, &free, &masses, tier.pick(4, 6));
         if !crate::oracle::sym::Sym::new(&g, &kin.inflow, &kin.masses).f_nonzero() {
@@ -26,7 +26,7 @@ pub fn gen_case(t: &mut Tape, tier: Tier) -> Option<Phys> {
         classes.push("kin:small-integers");
         return Some(Phys { g, kin, x, classes: classes.into_iter().map(String::from).collect() });
     }
-    gen::gen_phys(t, &PhysOpts { max_e: tier.pick(8, 9), max_l: 5, min_omega: mo, dmax: 6, max_ops: tier.pick(4, 6), profile: prof })
+    gen::gen_phys(t, &PhysOpts { max_e: tier.pick(8, 9), max_l: 8, min_omega: mo, dmax: 6, max_ops: tier.pick(4, 6), profile: prof })
 }
 
 pub fn assert_c10(c: &Phys, ev: &Eval, ctx: &mut Ctx) -> Result<(), Failure> {
@@ -41,7 +41,7 @@ pub fn assert_c10(c: &Phys, ev: &Eval, ctx: &mut Ctx) -> Result<(), Failure> {
         ctx.label("excluded:out-of-range");
         return Ok(());
     }
-    if ev.tau_v > 1e-6 {
+    if ev.tau_v > 1e-3 {
         ctx.label("excluded:ill-conditioned");
         return Ok(());
     }
